@@ -2,7 +2,7 @@
 See DESIGN.md 4.11, specs/aml/ObjTreeProps.tla (monitor), ObjTree.tla (design model), harness/aml/c13_objtree_test.go.
 
 Legs
- M  TLC explores the implementation-shaped pool/free-list model (every legal operation sequence of the small scope)
+ M  TLC explores the implementation-shaped pool/free-list model (the complete reachable graph for <= 4 / <= 5 pool slots)
     and the byte-level lookup algorithm on every small tree x every small-scope expression; each model step is judged
     by the monitor operators (NoMismatch), plus WellFormedModel and the action property ReuseBeforeGrow; design mutants
     must be rejected.
@@ -340,7 +340,13 @@ def run(ctx):
 
     # ---- leg G inputs: a transition tour over the emitted graph, and every emitted tree x expression x scope
     ids, states, edges = load_graph(graph)
-    scripts, ncov, classes = make_tour(ids, states, edges, ctx.seed, 9000 if q else 10 ** 9, 120 if q else 250)
+    has_out = set(a for a, _, _ in edges)
+    if len(has_out) != len(states):
+        raise vlib.Broken("edit graph is not closed (%d of %d states without explored successors): MaxOps too small"
+                          % (len(states) - len(has_out), len(states)))
+    scripts, ncov, classes = make_tour(ids, states, edges, ctx.seed, 10 ** 9, 120 if q else 250)
+    if ncov != len(edges):
+        raise vlib.Broken("transition tour covers %d of %d edges" % (ncov, len(edges)))
     missing = [c for c in NEEDED if classes[c] == 0]
     if missing:
         raise vlib.Broken("leg G tour never exercises %s: scope too small (vacuous)" % missing)
@@ -387,9 +393,11 @@ def run(ctx):
         validate(ctx, "V-G", trg, 1500)
         validate(ctx, "V-T", trt, 1500)
     ctx.cov["exhaustive"] = (not q) and ncov == len(edges) and not ctx.violations
-    ctx.cov["explanation"] = ("exhaustive = every transition of the TLC-explored edit graph (pool <= 5 slots, <= 9 operations) and every "
-                              "(tree <= 5 nodes, scope, small-scope expression) lookup was executed on the real ObjectTree and judged "
-                              "by the monitor (thorough tier); the quick tier walks a seeded part of the tour and a seeded sample of the trees")
+    ctx.cov["explanation"] = ("the edit graph is closed (every state reachable with <= %d pool slots, all its transitions): the tour "
+                              "executes every transition, i.e. every legal operation sequence of any length stays inside states and "
+                              "steps that were replayed on the real ObjectTree; exhaustive = additionally every (tree <= 5 nodes, scope, "
+                              "small-scope expression) lookup was executed and judged (thorough tier); the quick tier replays all "
+                              "transitions of the 4-slot graph and a seeded sample of the enumerated trees" % (4 if q else 5))
 
 
 def replay(ctx, path):
